@@ -207,6 +207,14 @@ def h_full_vs_tt(ctx, ns, sym_box):
     if sym_box:
         S = teneva.func_sum_full(Af, a, b)
         ctx.claim('dense_integral_exact', ctx.eq(S, exact))
+        # the same coefficients in Fortran order / as a strided view
+        ctx.claim('dense_integral_exact_fortran_order', ctx.eq(teneva.func_sum_full(np.asfortranarray(Af), a, b), exact))
+        if d >= 2:
+            big = np.empty(tuple(2 * k for k in Af.shape), dtype=Af.dtype)
+            big[...] = Af.reshape(-1)[0] * 0
+            view = big[tuple(slice(None, None, 2) for _ in range(d))]
+            view[...] = Af
+            ctx.claim('dense_integral_exact_strided', ctx.eq(teneva.func_sum_full(view, a, b), exact))
     else:
         ctx.assume(ctx.not_(ctx.eq(a[0] + b[0], 0)))
         ctx.assume(ctx.gt(abs(a[0] + b[0]), 1e-8))
